@@ -59,6 +59,9 @@ func (d *DescribeAclsResponse) decode(pd packetDecoder, version int16) (err erro
 	if err != nil {
 		return err
 	}
+	if n < 0 {
+		return errInvalidArrayLength
+	}
 	d.ResourceAcls = make([]*ResourceAcls, n)
 
 	for i := 0; i < n; i++ {
